@@ -393,3 +393,167 @@ def _umap_build(d):
 
 
 CONTRACTS["ufo2ft.util:makeUnicodeToGlyphNameMapping"].runtime = Runtime(_umap_cases, _umap_build)
+
+
+# =====================================================================================================
+# '.notdef' synthesis: StubGlyph.__init__, util._copyGlyph (the variant the compilers call: default factory, contour
+# direction chosen by the flavour) and BaseOutlineCompiler / OutlineTTFCompiler.makeMissingRequiredGlyphs.
+#
+# One class `StubGlyph` stands for EVERY glyph object these functions see (source glyphs, copies, stubs): they are
+# duck-typed in the code, and a dict value type is one class in the encoding.  Its constructor is the real
+# StubGlyph.__init__ (through the contract below).
+import z3 as _z3  # noqa: E402,F811
+from fontTools.misc.fixedTools import otRound as _otRound  # noqa: E402
+
+import ufo2ft.fontInfoData as _fid  # noqa: E402
+from pyvc.api import REAL, trusted  # noqa: E402
+from pyvc.symex import FuncRef  # noqa: E402
+
+
+class _Fn(FuncRef):
+    """a real function usable in clauses by both interpreters (symbolic: the FuncRef and so its model; CPython: the function)"""
+
+    def __init__(self, obj):
+        FuncRef.__init__(self, obj, f"{obj.__module__}.{obj.__qualname__}")
+
+    def __call__(self, *a, **k):
+        return self.obj(*a, **k)
+
+
+_G = {"getAttrWithFallback": _Fn(_fid.getAttrWithFallback), "otRound": _Fn(_otRound)}
+
+
+def _bound(name):
+    def m(ex, st, self, args, kwargs, node):
+        return Val.const(None)
+
+    m.__name__ = name
+    return m
+
+
+def _g_getPointPen(ex, st, self, args, kwargs, node):
+    p = ex.new_object(st, "C03_PointPen")
+    ex.write_field(st, p, "target", self, node)
+    ex.write_field(st, p, "reversing", Val.const(False), node)
+    return p
+
+
+def _g_drawPoints(ex, st, self, args, kwargs, node):
+    """glyph.drawPoints(pen): the pen's target glyph receives this glyph's outline — recorded as (source glyph, reversed?)"""
+    pen = args[0]
+    tgt = ex.read_field(st, pen, "target")
+    ex.write_field(st, tgt, "drawn_from", Val(Opt(Ref("StubGlyph")), Opt(Ref("StubGlyph")).sort().some(ex_lift(self, Ref("StubGlyph")))), node)
+    ex.write_field(st, tgt, "drawn_reversed", ex.read_field(st, pen, "reversing"), node)
+    return Val.const(None)
+
+
+_g_drawPoints.modifies = ["StubGlyph.drawn_from", "StubGlyph.drawn_reversed"]
+
+cls("C03_PointPen", fields={"target": Ref("StubGlyph"), "reversing": BOOL}, notes="point pen writing into a glyph; `reversing`: wrapped in ReverseContourPointPen (assumed pen protocol)")
+cls("C03_Component", fields={"baseGlyph": STR}, notes="component reference")
+cls(
+    "StubGlyph",
+    fields={
+        "name": STR, "width": REAL, "height": REAL, "unicodes": List(INT), "unitsPerEm": INT, "ascender": INT, "descender": INT,
+        "components": List(Ref("C03_Component")), "anchors": List(Dict(STR, STR)), "unicode": Opt(INT), "reverseContour": BOOL, "lib": Dict(STR, STR),
+        "drawn_from": Opt(Ref("StubGlyph")), "drawn_reversed": BOOL,
+    },
+    dynamic=True,
+    methods={"_drawDefaultNotdef": _bound("_drawDefaultNotdef"), "_drawDefaultNotdefPoints": _bound("_drawDefaultNotdefPoints"), "getPointPen": _g_getPointPen, "drawPoints": _g_drawPoints},
+    repo="ufo2ft.outlineCompiler:StubGlyph",
+    notes="a glyph object as the '.notdef' machinery sees it (source glyph, copy or StubGlyph): name, metrics, unicodes; drawn_from / drawn_reversed = "
+          "ghost record of the last drawPoints into it",
+)
+
+def _stub_contract(name, uni_ty, uni_expr, first_expr):
+    return contract(
+        "ufo2ft.outlineCompiler:StubGlyph.__init__",
+        name=name,
+        props=["C03"],
+        params={"self": Ref("StubGlyph"), "name": STR, "width": INT, "unitsPerEm": INT, "ascender": INT, "descender": INT, "unicodes": uni_ty, "reverseContour": BOOL},
+        modifies=[f"StubGlyph.{f}" for f in ("name", "width", "unitsPerEm", "ascender", "descender", "unicodes", "components", "anchors", "unicode", "reverseContour", "lib")],
+        ensures={
+            "name": "self.name == name",
+            "metrics": "self.width == width and self.unitsPerEm == unitsPerEm and self.ascender == ascender and self.descender == descender",
+            # no code points unless given: a synthesised glyph adds nothing to the character map
+            "unicodes": f"self.unicodes == {uni_expr}",
+            "unicode": f"self.unicode == {first_expr}",
+            "empty": "len(self.components) == 0 and len(self.anchors) == 0 and len(self.lib) == 0",
+            "direction": "self.reverseContour == reverseContour",
+        },
+        canaries={"never-reversed": "not self.reverseContour"},
+    )
+
+
+# (two variants because the engine does not narrow an Optional inside `a if a is not None else b`; the bare key is the one the
+#  compilers use: StubGlyph(...) without `unicodes`)
+_stub_contract(None, Const(None), "[]", "None")
+_stub_contract("with-unicodes", List(INT), "unicodes", "(None if len(unicodes) == 0 else unicodes[0])")
+
+
+def _stub_cases(rng, n):
+    return [{"name": rng.choice([".notdef", "foo"]), "width": rng.choice([0, 500]), "upm": rng.choice([1000, 2048]), "asc": 800, "desc": -200,
+             "unicodes": rng.choice([None, [], [65], [66, 67]]), "rev": bool(k % 2)} for k in range(n)]
+
+
+def _stub_build(d):
+    from ufo2ft.outlineCompiler import StubGlyph
+
+    return {"self": StubGlyph.__new__(StubGlyph), "name": d["name"], "width": d["width"], "unitsPerEm": d["upm"], "ascender": d["asc"], "descender": d["desc"],
+            "unicodes": d["unicodes"], "reverseContour": d["rev"]}
+
+
+CONTRACTS["ufo2ft.outlineCompiler:StubGlyph.__init__"].runtime = Runtime(lambda rng, n: [d for d in _stub_cases(rng, 3 * n) if d["unicodes"] is None][:n], _stub_build)
+CONTRACTS["ufo2ft.outlineCompiler:StubGlyph.__init__#with-unicodes"].runtime = Runtime(lambda rng, n: [d for d in _stub_cases(rng, 3 * n) if d["unicodes"] is not None][:n], _stub_build)
+
+
+# ---- util._copyGlyph as the compilers call it -----------------------------------------------------------------
+def _factory_call(ex, st, self, args, kwargs, node):
+    g = ex.new_object(st, "StubGlyph")
+    ex.write_field(st, g, "name", args[0], node)
+    ex.write_field(st, g, "drawn_from", Val(Opt(Ref("StubGlyph")), Opt(Ref("StubGlyph")).sort().nil), node)
+    return g
+
+
+_factory_call.modifies = ["StubGlyph.name", "StubGlyph.drawn_from"]
+cls("C03_GlyphFactory", methods={"__call__": _factory_call}, notes="newGlyph(name): a fresh empty glyph object with that name")
+
+
+@trusted("c03.getNewGlyphFactory", "ufo2ft.util._getNewGlyphFactory(glyph) returns a function making a NEW, empty glyph object of the UFO library's class with the "
+         "given name (ufo2ft's thin reflection wrapper around the library constructor; bounded: run-time harness of _copyGlyph#c03 on ufoLib2 and defcon)")
+def _gngf(ex, st, args, kwargs, node):
+    return ex.new_object(st, "C03_GlyphFactory")
+
+
+@trusted("c03.ReverseContourPointPen", "fontTools ReverseContourPointPen(pen): a pen that forwards to `pen` with every contour reversed")
+def _rcpp(ex, st, args, kwargs, node):
+    p = ex.new_object(st, "C03_PointPen")
+    ex.write_field(st, p, "target", ex.read_field(st, args[0], "target"), node)
+    ex.write_field(st, p, "reversing", Val.const(True), node)
+    return p
+
+
+def _deepcopy(ex, st, args, kwargs, node):
+    return args[0]
+
+
+_COPY = contract(
+    "ufo2ft.util:_copyGlyph",
+    name="c03",
+    props=["C03"],
+    params={"glyph": Ref("StubGlyph"), "glyphFactory": Const(None), "reverseContour": BOOL},
+    returns=Ref("StubGlyph"),
+    globals={"_getNewGlyphFactory": Val.obj(FuncRef(None, "c03.getNewGlyphFactory"))},
+    models={"copy.deepcopy": _deepcopy, "fontTools.pens.pointPen.ReverseContourPointPen": _rcpp},
+    modifies=[f"StubGlyph.{f}" for f in ("name", "width", "height", "unicodes", "anchors", "lib", "drawn_from", "drawn_reversed")],
+    ensures={
+        "a-copy": "result is not glyph and fresh(result)",
+        "name": "result.name == glyph.name",
+        # the copy declares exactly the source glyph's code points (it enters the character map like the original)
+        "unicodes": "result.unicodes == glyph.unicodes",
+        "metrics": "result.width == glyph.width and result.height == glyph.height",
+        "outline": "result.drawn_from == glyph and result.drawn_reversed == reverseContour",
+        "source-untouched": "glyph.name == old(glyph.name) and glyph.unicodes == old(glyph.unicodes) and glyph.width == old(glyph.width)",
+    },
+    canaries={"never-reversed": "not result.drawn_reversed"},
+)
